@@ -192,7 +192,7 @@ def preload_rule(ctx, p, K):
     ctx.ob(rule, f.key + ":triangle", tri, where=f, node=sv[0].node, construct=f"{l0!r}; {l1!r}", message="overlaps must be enumerated over the upper triangle ip1 >= ip0 of all pixel pairs")
     w = Poly.fn("w_tilde_curvature_value_from", S_("noise_map_native"), S_("kernel_native"), E_(N, ip0, ZERO), E_(N, ip0, ONE), E_(N, ip1, ZERO), E_(N, ip1, ONE))
     v = sv[0].value
-    halved = Poly.fn("phi", w / TWO, w)
+    halved = Poly.fn("ite", Poly.fn("cmp:==", *sorted((ip0, ip1), key=repr)), w / TWO, w)
     form_ok = isinstance(v, Poly) and v in (halved, w)
     ctx.ob(rule, f.key + ":value", form_ok, where=f, node=sv[0].node, construct=short(v),
            message=f"the stored overlap must be w(noise_map, kernel, y0, x0, y1, x1) with the pixel coordinates bound to the matching axes (halved on the diagonal); expected {short(halved)}")
